@@ -35,6 +35,7 @@ def handle (line : String) : String :=
     | _, _ => "badcase"
   | ["footer", c, t, _delivery] =>
     -- the same, the stream reaching the loader in pieces: the verdict does not depend on the delivery
+    -- (Model/Tee.lean: Properties.C11.readFull_spec, readFull_delivery_independent, readAll_crc)
     match ofHex c, ofHex t with
     | some cov, some tr =>
       if tr.length < 8 then "eof" else if footerOk cov tr then "ok" else "mismatch"
